@@ -1517,8 +1517,12 @@ func (l *lexer) linebreak() bool {
 			l.mark(0)
 		case '#':
 			// comment
-			hash = true
-			l.mark(-1)
+			if !hash {
+				hash = true
+				l.mark(-1)
+				break
+			}
+			fallthrough
 		default:
 			if !hash {
 				l.unread()
